@@ -1,9 +1,15 @@
 package main
 
-// C05: GoLite targets (docs/GOLITE_NOTES.md).
+// C05: GoLite targets (docs/GOLITE_NOTES.md): revocation of the signing chain.
 func init() {
+	const v = ".../verifier"
 	Register("C05", []Target{
 		{Pkg: "crypto/x509", Type: "Certificate", Opaque: true, Views: map[string]string{"Subject.String()": "string"}},
-		{Pkg: ".../verifier", Func: "revocationFinalResult"},
+		{Pkg: v, Func: "checkRevocationResults"},
+		{Pkg: v, Func: "revocationFinalResult"},
+		// the step itself: the two validator interfaces are fields of the verifier (function
+		// values), what notation-core-go reads from the envelope is an oracle
+		{Pkg: "github.com/notaryproject/notation-core-go/signature", Func: "(*SignerInfo).AuthenticSigningTime", Oracle: true},
+		{Pkg: v, Func: "(*verifier).verifyRevocation"},
 	})
 }
